@@ -261,9 +261,11 @@ def _reencode_check(raw: bytes, req: dict) -> str:
             return "not decoded as a PDU: %r" % type(pdu)
         try:
             content = pdu.value
-        except Exception as exc:  # error-status PDUs raise on purpose
-            return "" if type(exc).__name__ in ("ErrorResponse", "NoSuchOID") or hasattr(exc, "error_status") else \
-                "PDU value raised %s" % type(exc).__name__
+        except Exception as exc:  # error-status PDUs raise on purpose when their content is read ...
+            if not (type(exc).__name__ in ("ErrorResponse", "NoSuchOID") or hasattr(exc, "error_status")):
+                return "PDU value raised %s" % type(exc).__name__
+            # ... re-encoding the decoded PDU must still yield the same content
+            return same(bytes(pdu), original, "PDU with error-status (lazy)")
         fresh = type(pdu)(PDUContent(content.request_id,
                                      [VarBind(type(vb.oid)(vb.oid.value), _rebuild(vb.value)) for vb in content.varbinds],
                                      content.error_status, content.error_index))
